@@ -7,11 +7,13 @@ PROPS = {}
 
 PROPS['C02'] = dict(
     engine='A', technique='symbolic-scalar execution of the real templates (T = z3 real terms) + QF_NRA obligations, exact-rational replay',
-    harnesses=[dict(name='C02_eval', src='C02_eval.cpp',
+    harnesses=[dict(name='C02_eval_high', src='C02_eval.cpp', defs=dict(quick=['-DFIXED_GRID', '-DMAXN=4'], thorough=['-DFIXED_GRID', '-DMAXN=6']),
+                    functions=['Spline::operator() for orders 6, 8, 10, 20 on a fixed rational grid (x and coefficients symbolic)']),
+               dict(name='C02_eval', src='C02_eval.cpp',
                     defs=dict(quick=['-DMAXN=5', '-DMAXO=3', '-DHISTN=3'], thorough=['-DMAXN=6', '-DMAXO=5', '-DHISTN=4']),
                     functions=['Spline::operator()', 'Spline::findInterval', 'Spline::front', 'Spline::back', 'Support::begin', 'Support::end', 'Support::front',
                                'Support::back', 'Support::size', 'Support::operator[]', 'Grid::operator[]', 'internal::evaluateInterval', 'std::lower_bound (libstdc++)'])],
-    bounds=dict(quick='grids of 2..5 symbolic points, every window (empty, point-like, all s<e<=n), orders 0..3, symbolic coefficients and abscissa; plus evaluation of objects with a history (earlier evaluation at an independent symbolic x1, then copy/move/lower-order assignment, += or move-out-and-reassign from every other window) on grids of 2..3 points',
+    bounds=dict(quick='grids of 2..5 symbolic points, every window (empty, point-like, all s<e<=n), orders 0..3, symbolic coefficients and abscissa; plus evaluation of objects with a history (earlier evaluation at an independent symbolic x1, then copy/move/lower-order assignment, += or move-out-and-reassign from every other window) on grids of 2..3 points; plus orders 6, 8, 10, 20 on FIXED irregular rational grids of 2..4 points (x and coefficients symbolic)',
                 thorough='grids of 2..6 symbolic points, every window, orders 0..5'),
     outside='orders/grids above the bound; NaN abscissa; floating-point rounding (C16)',
     assumptions=['grid points strictly increasing reals', 'exact real arithmetic (sym::Real), not IEEE'],
@@ -21,13 +23,15 @@ PROPS['C02'] = dict(
 
 PROPS['C03'] = dict(
     engine='A', technique='symbolic-scalar execution of the real templates (T = z3 real terms) + QF_NRA obligations, exact-rational replay',
-    harnesses=[dict(name='C03_arith', src='C03_arith.cpp',
+    harnesses=[dict(name='C03_arith_high', src='C03_arith.cpp', defs=dict(quick=['-DFIXED_GRID', '-DMAXN=3'], thorough=['-DFIXED_GRID', '-DMAXN=4']),
+                    functions=['Spline arithmetic for order pairs in {4,6,9,10}^2, scalar operations on orders 8 and 10, linearCombination on order 7 (fixed rational grid)']),
+               dict(name='C03_arith', src='C03_arith.cpp',
                     defs=dict(quick=['-DMAXN=5', '-DMAXO=2', '-DLCN=4'], thorough=['-DMAXN=6', '-DMAXO=3', '-DLCN=5']),
                     functions=['Spline::operator+', 'Spline::operator-', 'Spline::operator*(Spline)', 'Spline::operator*(T)', 'Spline::operator/(T)', 'Spline::operator-()',
                                'Spline::operator+=', 'Spline::operator-=', 'Spline::operator*=', 'Spline::operator/=', 'Spline::operator=(lower order)', 'operator*(T,Spline)',
                                'linearCombination (iterator and collection overloads)', 'internal::add', 'internal::changearraysize', 'internal::make_array',
                                'Support::calcUnion', 'Support::calcIntersection', 'Support::intervalIndexFromAbsolute', 'Support::absoluteFromRelative', 'Spline::Spline (validation)'])],
-    bounds=dict(quick='grids of 2..5 symbolic points; every ordered pair of windows (empty, point-like, nested, overlapping, touching, gap); order pairs {0,1,2}^2; in-place forms from an arbitrary prior state and sequences of up to 4 updates; linearCombination of 2 and 3 splines (all window triples on grids <=4, third spline at every position), symbolic scalars',
+    bounds=dict(quick='grids of 2..5 symbolic points; every ordered pair of windows (empty, point-like, nested, overlapping, touching, gap); order pairs {0,1,2}^2; in-place forms from an arbitrary prior state and sequences of up to 4 updates; linearCombination of 2 and 3 splines (all window triples on grids <=4, third spline at every position), symbolic scalars; plus order pairs {4,6,9,10}^2 on FIXED irregular rational grids of 2..3 points (coefficients, scalars, x symbolic)',
                 thorough='grids of 2..6 points, order pairs {0..3}^2, linearCombination on grids <=5'),
     outside='orders/grids above the bound; collections of more than 3 splines; floating-point rounding (C16)',
     assumptions=['grid points strictly increasing reals', 'scalar divisor non-zero', 'exact real arithmetic (sym::Real), not IEEE'],
